@@ -27,6 +27,7 @@ func init() {
 	reg(propC05)
 	reg(propC06)
 	reg(propC07)
+	reg(propC08)
 	reg(propC10)
 	reg(propC11)
 	reg(propC12)
